@@ -243,6 +243,9 @@ impl Out {
     pub fn emit(&mut self, v: Value) {
         serde_json::to_writer(&mut self.w, &v).expect("write event");
         self.w.write_all(b"\n").expect("write newline");
+        // every finished event is visible at once: the orchestrator tells a library call that never returns
+        // from a slow driver by the processor time spent since the last finished event
+        self.w.flush().expect("flush event");
         self.n += 1;
     }
     pub fn finish(mut self) {
